@@ -25,6 +25,9 @@ pub struct SubframeInfo {
     pub max_rice: u32,
     pub bits: u64,
     pub range_ok: bool,
+    /// LPC only: coefficient precision in bits and right shift
+    pub lpc_precision: u8,
+    pub lpc_shift: u8,
 }
 
 #[derive(Debug, Clone)]
@@ -576,7 +579,7 @@ fn decode_subframe(b: &mut Bits, bs: usize, bps: u32, cfg: &Cfg) -> R<(SubframeI
         return Err("wasted bits >= depth".into());
     }
     let eb = bps - wasted;
-    let mut si = SubframeInfo { kind: "", order: 0, wasted, method: 0, part_order: 0, escapes: 0, max_rice: 0, bits: 0, range_ok: true };
+    let mut si = SubframeInfo { kind: "", order: 0, wasted, method: 0, part_order: 0, escapes: 0, max_rice: 0, bits: 0, range_ok: true, lpc_precision: 0, lpc_shift: 0 };
     let mut s: Vec<i64> = Vec::with_capacity(bs);
     match ty {
         0 => {
@@ -636,6 +639,8 @@ fn decode_subframe(b: &mut Bits, bs: usize, bps: u32, cfg: &Cfg) -> R<(SubframeI
             if shift < 0 {
                 return Err("negative lpc shift".into());
             }
+            si.lpc_precision = prec as u8;
+            si.lpc_shift = shift as u8;
             let mut coef = vec![];
             for _ in 0..order {
                 coef.push(b.s(prec)?);
